@@ -1,6 +1,7 @@
 import NumbersModel.Drv.A1
 import NumbersModel.Drv.Tokenizer
 import NumbersModel.Drv.Items
+import NumbersModel.Drv.Addressing
 
 open NumbersModel.Drv
 
@@ -10,6 +11,7 @@ def dispatch (line : String) : String :=
     | "a1" :: rest => handleA1 rest
     | "tok" :: rest => handleTok rest
     | "items" :: rest => handleItems rest
+    | "addr" :: rest => handleAddr rest
     | _ => none
   match r with
   | some s => s
